@@ -1,10 +1,19 @@
 #!/bin/sh
 # usage: try_seed.sh <patch.diff> <Cnn> [tier]  - run a check against a scratch worktree of /repo HEAD + patch
-# (never touches /repo's working tree; the worktree is removed afterwards)
+# (never touches /repo's working tree; the worktree is removed afterwards).  If the patch no longer applies to HEAD
+# (a later fix: commit rewrote its context) it is applied to the commit it was confirmed on (meta.json next to it).
 patch=$1; id=$2; tier=${3:-quick}
 wt=$(mktemp -d /tmp/seedtest.XXXXXX)
 git -C /repo worktree add --detach $wt HEAD >/dev/null 2>&1 || exit 3
-if ! git -C $wt apply $patch; then echo "PATCH DOES NOT APPLY"; git -C /repo worktree remove --force $wt; exit 3; fi
+if ! git -C $wt apply $patch 2>/dev/null; then
+  base=$(/venv/bin/python -c "import json,sys,os; print(json.load(open(os.path.join(os.path.dirname(sys.argv[1]),'meta.json'))).get('confirmed',{}).get('repo_head',''))" $patch 2>/dev/null)
+  git -C /repo worktree remove --force $wt
+  if [ -z "$base" ]; then echo "PATCH DOES NOT APPLY"; exit 3; fi
+  wt=$(mktemp -d /tmp/seedtest.XXXXXX)
+  git -C /repo worktree add --detach $wt $base >/dev/null 2>&1 || exit 3
+  if ! git -C $wt apply $patch; then echo "PATCH DOES NOT APPLY (HEAD nor $base)"; git -C /repo worktree remove --force $wt; exit 3; fi
+  echo "(patch applied to its confirmation base $base: it no longer applies to HEAD)"
+fi
 cd /verif && BCT_REPO=$wt /venv/bin/python run_check.py $id --tier $tier 2>&1 | grep -v "^WARNING conda" | cut -c1-400 | tail -${TAIL:-8}
 rc=$?
 git -C /repo worktree remove --force $wt
